@@ -247,8 +247,21 @@ fn hsl(h: &httparse::Header) -> (Sl, Sl) {
 /// Run one entry point.  `cap` is the real array length.  The array is
 /// pre-filled with sentinels and bracketed by two canary slots.
 pub fn run(entry: u8, cfgbits: u8, buf: &[u8], cap: usize) -> Obs {
+    run_opt(entry, cfgbits, buf, cap, false)
+}
+
+/// the same call on a value that has been used before: an earlier parse of another buffer set
+/// the start-line fields and returned Partial (so the array is whole again)
+pub fn run_dirty(entry: u8, cfgbits: u8, buf: &[u8], cap: usize) -> Obs {
+    run_opt(entry, cfgbits, buf, cap, true)
+}
+
+pub static PRE_REQ: &[u8] = b"PREVIOUS /stale/target HTTP/1.0\r\n";
+pub static PRE_RESP: &[u8] = b"HTTP/1.0 299 Stale Reason\r\n";
+
+fn run_opt(entry: u8, cfgbits: u8, buf: &[u8], cap: usize, dirty: bool) -> Obs {
     let mut o = Obs::default();
-    let r = catch_unwind(AssertUnwindSafe(|| run_inner(entry, cfgbits, buf, cap)));
+    let r = catch_unwind(AssertUnwindSafe(|| run_inner(entry, cfgbits, buf, cap, dirty)));
     match r {
         Ok(x) => x,
         Err(_) => {
@@ -258,7 +271,8 @@ pub fn run(entry: u8, cfgbits: u8, buf: &[u8], cap: usize) -> Obs {
     }
 }
 
-fn run_inner<'b>(entry: u8, cfgbits: u8, buf: &'b [u8], cap: usize) -> Obs {
+fn run_inner<'b>(entry: u8, cfgbits: u8, buf: &'b [u8], cap: usize, dirty: bool) -> Obs {
+    let mut un2: Vec<MaybeUninit<httparse::Header<'b>>> = (0..4).map(|i| MaybeUninit::new(sentinel(i))).collect();
     assert!(cap + 2 <= MAX_SLOTS);
     let mut o = Obs::default();
     let cfg = make_config(cfgbits);
@@ -284,6 +298,15 @@ fn run_inner<'b>(entry: u8, cfgbits: u8, buf: &'b [u8], cap: usize) -> Obs {
             } else {
                 httparse::Request::new(&mut arr[1..cap + 1])
             };
+            if dirty {
+                let _ = match entry {
+                    E_CFG_REQ => cfg.parse_request(&mut req, PRE_REQ),
+                    E_REQ_PARSE => req.parse(PRE_REQ),
+                    E_CFG_REQ_UNINIT => cfg.parse_request_with_uninit_headers(&mut req, PRE_REQ, &mut un2[..]),
+                    _ => req.parse_with_uninit_headers(PRE_REQ, &mut un2[..]),
+                };
+                httparse::verif::reset_counters();
+            }
             a0 = allocs();
             let r = match entry {
                 E_CFG_REQ => cfg.parse_request(&mut req, buf),
@@ -313,6 +336,14 @@ fn run_inner<'b>(entry: u8, cfgbits: u8, buf: &'b [u8], cap: usize) -> Obs {
             } else {
                 httparse::Response::new(&mut arr[1..cap + 1])
             };
+            if dirty {
+                let _ = match entry {
+                    E_CFG_RESP => cfg.parse_response(&mut resp, PRE_RESP),
+                    E_RESP_PARSE => resp.parse(PRE_RESP),
+                    _ => cfg.parse_response_with_uninit_headers(&mut resp, PRE_RESP, &mut un2[..]),
+                };
+                httparse::verif::reset_counters();
+            }
             a0 = allocs();
             let r = match entry {
                 E_CFG_RESP => cfg.parse_response(&mut resp, buf),
